@@ -518,7 +518,9 @@ func (w *memWS) WriteOrCreateFiles(_ context.Context, files ...*endorse.File) er
 		if err != nil {
 			return err
 		}
-		w.files[f.Path] = append([]byte(nil), f.Contents...)
+		// The slice is retained, not copied: an implementation that uploads at commit time keeps File.Contents
+		// past the call, so contents that the caller later overwrites in place would corrupt what was committed.
+		w.files[f.Path] = f.Contents
 		w.dirty[f.Path] = true
 		w.v.exit(seq, nil)
 	}
